@@ -383,6 +383,10 @@ class LockSkel:
                 for a in args[1:]:
                     pre += [e for e in self.eff(a, params) if not e.startswith("(KGlobal")]
                 return pre + ["(%s %s)" % (PTHREAD_SYNC[cname], q(self.addr_name(args[0])))]
+            if cname == "pthread_mutexattr_settype" and len(args) == 2 and self.addr_name(args[0]):
+                t = strip(args[1])
+                ty = t.get("referencedDecl", {}).get("name") if t.get("kind") == "DeclRefExpr" else ("int:%s" % t.get("value") if t.get("kind") == "IntegerLiteral" else "?")
+                return ["(KMutexType %s %s)" % (q(self.addr_name(args[0])), q(ty or "?"))]
             if cname == "pthread_atfork" and len(args) == 3:
                 names = [self.addr_name(a) or ("" if strip(a).get("kind") in ("IntegerLiteral", "GNUNullExpr") or strip(a).get("kind") == "CStyleCastExpr" else None) for a in args]
                 if None not in names:
